@@ -39,11 +39,13 @@ const (
 )
 
 func donePkt(channel, k int, final bool) []byte {
-	st := 0x10
+	// a response in progress: DONE(MORE|COUNT) packages, one per packet, no EOM (at EOM the channel would add a final
+	// DONE of its own); the final DONE(0) ends the response
+	st, eom := 0x11, 0
 	if final {
-		st = 0
+		st, eom = 0, 1
 	}
-	return wirePacket(4, 1, channel, 0, 0, []byte{0xfd, byte(st), 0, 0, 0, byte(k), byte(k >> 8), 0, 0})
+	return wirePacket(4, eom, channel, 0, 0, []byte{0xfd, byte(st), 0, 0, 0, byte(k), byte(k >> 8), 0, 0})
 }
 
 func resTree(p tds.Package, err error, returned bool) sx.T {
